@@ -276,6 +276,11 @@ Definition X_apply_ok (n : nat) (data : list Q) (dens : list Q) : verdict :=
   prepare_ok true [List.length dens] [n] >>
   guard (negb (forallb (fun i => close0 (rowdot data n dens i)) (seq 0 n))) RuntimeError.
 
+(* the same X object applied to several state matrices one after the other: every application
+   is checked against the density of ITS state matrix (no memory of earlier applications) *)
+Definition X_reuse_ok (n : nat) (data : list Q) (densities : list (list Q)) : list verdict :=
+  map (X_apply_ok n data) densities.
+
 (* ------------------------------------------------------------------ 11. diffusion
    diffusion.get_shape(tau, D, k) *)
 Definition last2_differ (s : list nat) : bool :=
